@@ -148,7 +148,9 @@ let s1_case (c : case) : unit =
   let target = ref (-1) and framed = ref false and hdr = ref [] in
   let result = ref "" and tail_ops = ref [] and pre_tail = ref None in
   let saw_mark = ref false and saw_memo = ref false and rewrites = ref 0 and muts = ref 0 in
-  let ref_advance (t : token) =
+  (* the reference machine runs on the tokens decoded from the emitted bytes, independently of
+     the model; C17 compares it with the IMPLEMENTATION's recorded simulated state *)
+  let ref_advance (t : token) (impl_stk : kind list) (impl_memo : (n * kind) list) =
     if safe then
       match !r with
       | None -> ()
@@ -159,9 +161,17 @@ let s1_case (c : case) : unit =
            | None -> prop "C01" (Printf.sprintf "step=%d %s rejected by the reference machine" !step (tok_to_string t)); r := None
            | Some r1 ->
                r := Some r1;
-               if not (invb !s r1) then
-                 prop "C17" (Printf.sprintf "step=%d after %s sim=%s" !step (tok_to_string t) (string_of_stack !s.stk)))
+               let sorted_rm = List.sort (fun (a, _) (b, _) -> compare (int_of_n a) (int_of_n b)) r1.rmemo in
+               let impl = { !s with stk = impl_stk; memo = impl_memo } in
+               if not (invb impl { r1 with rmemo = sorted_rm }) then
+                 prop "C17" (Printf.sprintf "step=%d after %s sim=%s/%s" !step (tok_to_string t)
+                               (string_of_stack impl_stk) (string_of_memo impl_memo)))
   in
+  let resync fin post_stk post_memo =
+    s := { !s with stk = post_stk; memo = post_memo };
+    (match lex_exact (bytes_of_hex fin) with
+     | Some out -> out_toks := out :: !out_toks; ref_advance out post_stk post_memo
+     | None -> r := None) in
   List.iter (fun l ->
     match words l with
     | "META" :: rest ->
@@ -197,21 +207,21 @@ let s1_case (c : case) : unit =
               | _ -> ());
              if rcount > 0 && orig = fin then diff !step "rewrite-count" "hook says rewritten but bytes equal";
              out_toks := out :: !out_toks;
-             ref_advance out
+             ref_advance out post_stk post_memo
          | S1_valid_set ->
              diff !step "valid-set" (Printf.sprintf "impl=%s model=%s stack=%s" valid
                (String.concat "," (List.map cp_name (get_valid_opcodes cfg !s))) (string_of_stack !s.stk));
-             s := { !s with stk = post_stk; memo = post_memo }; r := None
+             resync fin post_stk post_memo
          | S1_lex -> diff !step "lex" (Printf.sprintf "orig=%s final=%s" orig fin);
              s := { !s with stk = post_stk; memo = post_memo }; r := None
          | S1_envelope t -> diff !step "envelope" (Printf.sprintf "chosen=%s emitted=%s" chosen (tok_to_string t));
-             s := { !s with stk = post_stk; memo = post_memo }; r := None
+             resync fin post_stk post_memo
          | S1_rewrite (t, o) -> diff !step "rewrite" (Printf.sprintf "%s -> %s" (tok_to_string t) (tok_to_string o));
-             s := { !s with stk = post_stk; memo = post_memo }; r := None
+             resync fin post_stk post_memo
          | S1_state s' ->
              diff !step "sim-state" (Printf.sprintf "after %s impl=%s/%s model=%s/%s" chosen stk memo
                (string_of_stack s'.stk) (string_of_memo s'.memo));
-             s := { !s with stk = post_stk; memo = post_memo }; r := None)
+             resync fin post_stk post_memo)
     | "RESULT" :: rest -> result := String.concat " " rest
     | _ -> ()) c.lines;
   (* the collapse tail must be what cleanup_for_stop computes from the state after the body *)
@@ -274,10 +284,348 @@ let s1_tail_case (c : case) : unit =
     Printf.printf "DIFF %s step=0 tail impl=%s model=%s\n" c.id
       (String.concat "," (List.map cp_name impl)) (String.concat "," (List.map cp_name ops))
 
+
+(* ---------- S2: bit-exact comparison with the level-F model ---------- *)
+let rec pos_to_int64 (p : positive) : int64 =
+  match p with XH -> 1L | XO q -> Int64.shift_left (pos_to_int64 q) 1 | XI q -> Int64.logor (Int64.shift_left (pos_to_int64 q) 1) 1L
+let n_to_int64 (x : n) : int64 = match x with N0 -> 0L | Npos p -> pos_to_int64 p
+let n_of_int64 (x : int64) : n = n_of_hex (Printf.sprintf "%Lx" x)
+let bytes_of_string (s : string) : n list = List.init (String.length s) (fun i -> n_of_int (Char.code s.[i]))
+
+let fmt_override : (int64, string) Hashtbl.t = Hashtbl.create 16
+let fmt_model (bits : n) : n list =
+  let b = n_to_int64 bits in
+  bytes_of_string (match Hashtbl.find_opt fmt_override b with Some s -> s | None -> Glue.fmt_f64_bits b)
+
+let stdlib_table : n list list Lazy.t = lazy (
+  let repo = try Sys.getenv "VERIF_REPO" with Not_found -> "/repo" in
+  let ic = open_in_bin (Filename.concat repo "data/stdlib_complete.txt") in
+  let n = in_channel_length ic in
+  let content = really_input_string ic n in
+  close_in ic;
+  (* str::lines(): split on \n, a trailing \r is stripped, no final empty line *)
+  let ls = String.split_on_char '\n' content in
+  let ls = match List.rev ls with "" :: r -> List.rev r | _ -> ls in
+  List.map (fun l ->
+    let l = if String.length l > 0 && l.[String.length l - 1] = '\r' then String.sub l 0 (String.length l - 1) else l in
+    bytes_of_string l) ls)
+
+let the_env () : env = { stdlib = Lazy.force stdlib_table; fmt_f64 = fmt_model }
+
+let source_of (src : string) : source =
+  if String.length src > 5 && String.sub src 0 5 = "seed:" then begin
+    let seed = Int64.of_string ("0u" ^ String.sub src 5 (String.length src - 5)) in
+    let f = Glue.word_stream seed in
+    SrcWords ((fun (i : n) -> n_of_int (f (int_of_n i))), N0)
+  end else SrcBytes (bytes_of_hex (String.sub src 6 (String.length src - 6)))
+
+let rust_name (o : opcode) = cp_name o
+
+type impl_step = { ph : string; valid : string; chosen : string; orig : string; fin : string; m : int; rw : int }
+
+let parse_impl (c : case) =
+  let meta = ref None and steps = ref [] and result = ref "" in
+  List.iter (fun l ->
+    match words l with
+    | "META" :: rest -> let m = kv (String.concat " " rest) in
+        meta := Some (Hashtbl.find m "frame" = "1", int_of_string (Hashtbl.find m "T"))
+    | ["STEP"; ph; valid; chosen; orig; fin; _; _; m; rw] ->
+        steps := { ph; valid; chosen; orig; fin;
+                   m = int_of_string (String.sub m 2 (String.length m - 2));
+                   rw = int_of_string (String.sub rw 2 (String.length rw - 2)) } :: !steps
+    | "RESULT" :: rest -> result := String.concat " " rest
+    | _ -> ()) c.lines;
+  (!meta, List.rev !steps, !result)
+
+let s2_compare (c : case) (report : bool) : bool =
+  let h = kv c.spec in
+  let cfg = config_of h in
+  let (meta, steps, result) = parse_impl c in
+  let diff what detail = if report then Printf.printf "DIFF %s step=0 s2-%s %s\n" c.id what detail in
+  let model = generate_internal (the_env ()) (fun l -> l) cfg (source_of (Hashtbl.find h "src")) in
+  match model, words result with
+  | Panic w, ("panic" :: _) -> ignore w; true
+  | Panic w, _ -> diff "panic" (Printf.sprintf "model panics (code %d), implementation: %s" (int_of_n w) result); false
+  | Ok _, ("panic" :: _ | "err" :: _) -> diff "panic" ("implementation fails, model returns a pickle: " ^ result); false
+  | Ok g, ["ok"; outhex] ->
+      let ok = ref true in
+      let d what detail = if !ok then diff what detail; ok := false in
+      (match meta with
+       | Some (fr, t) ->
+           if fr <> g.g_framed then d "frame" (Printf.sprintf "impl=%b model=%b" fr g.g_framed);
+           if t <> int_of_n g.g_target then d "T" (Printf.sprintf "impl=%d model=%d" t (int_of_n g.g_target))
+       | None -> d "meta" "no META line");
+      let body = List.filter (fun s -> s.ph = "B") steps and tail = List.filter (fun s -> s.ph = "T") steps in
+      let rec cmp i (ms : ((opcode list * opcode) * emitted) list) (is : impl_step list) =
+        match ms, is with
+        | [], [] -> ()
+        | ((valid, o), em) :: mr, st :: ir ->
+            let v = String.concat "," (List.map rust_name valid) in
+            let iv = String.concat "," (List.map (fun x -> cp_name (op_of_rust x)) (if st.valid = "-" then [] else String.split_on_char ',' st.valid)) in
+            if v <> iv then d "valid-set" (Printf.sprintf "step=%d impl=%s model=%s" i iv v)
+            else if cp_name (op_of_rust st.chosen) <> rust_name o then
+              d "chosen" (Printf.sprintf "step=%d impl=%s model=%s" i st.chosen (rust_name o))
+            else if hex_of_bytes em.e_orig <> st.orig then
+              d "emitted" (Printf.sprintf "step=%d %s impl=%s model=%s" i st.chosen st.orig (hex_of_bytes em.e_orig))
+            else if hex_of_bytes em.e_final <> st.fin then
+              d "rewritten" (Printf.sprintf "step=%d %s impl=%s model=%s" i st.chosen st.fin (hex_of_bytes em.e_final))
+            else if int_of_n em.e_muts <> st.m then
+              d "mutations" (Printf.sprintf "step=%d %s impl=%d model=%d" i st.chosen st.m (int_of_n em.e_muts))
+            else if (int_of_n em.e_rewrites > 0) <> (st.rw > 0) then
+              d "rewrites" (Printf.sprintf "step=%d %s impl=%d model=%d" i st.chosen st.rw (int_of_n em.e_rewrites))
+            else cmp (i + 1) mr ir
+        | _, _ -> d "steps" (Printf.sprintf "impl has %d body steps, model %d" (List.length body) (List.length g.g_trace)) in
+      cmp 1 g.g_trace body;
+      let mt = String.concat "," (List.map rust_name g.g_tail) in
+      let it = String.concat "," (List.map (fun s -> cp_name (op_of_rust s.chosen)) tail) in
+      if mt <> it then d "tail" (Printf.sprintf "impl=%s model=%s" it mt);
+      if hex_of_bytes g.g_out <> outhex then d "output" (Printf.sprintf "impl=%s model=%s" (String.sub outhex 0 (min 200 (String.length outhex))) (let m = hex_of_bytes g.g_out in String.sub m 0 (min 200 (String.length m))));
+      !ok
+  | _, _ -> diff "result" ("unparsable RESULT: " ^ result); false
+
+(* Rust's float text is taken from the implementation when our OCaml formatter disagrees, provided
+   it denotes the same f64 (glue issue, not a model issue): FLOAT steps give text, the bits are recovered *)
+let learn_floats (c : case) =
+  let (_, steps, _) = parse_impl c in
+  List.iter (fun st ->
+    if st.ph = "B" && String.length st.orig > 2 && String.sub st.orig 0 2 = "46" then begin
+      let bs = bytes_of_hex st.orig in
+      let txt = string_of_ascii (List.filteri (fun i _ -> i > 0 && i < List.length bs - 1) bs) in
+      match float_of_string_opt txt with
+      | Some f when not (Float.is_nan f) -> Hashtbl.replace fmt_override (Int64.bits_of_float f) txt
+      | _ -> ()
+    end) steps
+
+let s2_case (c : case) : unit =
+  Hashtbl.reset fmt_override;
+  if s2_compare c false then Printf.printf "OK2 %s\n" c.id
+  else begin
+    learn_floats c;
+    if s2_compare c true then Printf.printf "OK2 %s\nNOTE %s float-format-fallback\n" c.id c.id
+  end
+
+
+(* ---------- S3/S4: direct calls of the entropy adapters and the mutators ---------- *)
+let hex_of_n (x : n) : string =
+  match x with
+  | N0 -> "0"
+  | Npos p ->
+      let rec bits p acc = match p with XH -> 1 :: acc | XO q -> bits q (0 :: acc) | XI q -> bits q (1 :: acc) in
+      let bl = bits p [] in                                  (* msb first *)
+      let pad = (4 - List.length bl mod 4) mod 4 in
+      let bl = List.init pad (fun _ -> 0) @ bl in
+      let buf = Buffer.create 16 in
+      let rec go = function
+        | a :: b :: c :: d :: r -> Buffer.add_string buf (Printf.sprintf "%x" (8 * a + 4 * b + 2 * c + d)); go r
+        | _ -> () in
+      go bl; Buffer.contents buf
+let z_of_hex (w : int) (s : string) : z = to_signed (n_of_int w) (n_of_hex s)
+let hex_of_z (w : int) (v : z) : string = hex_of_n (to_unsigned (n_of_int w) v)
+
+let utf8_decode (bs : n list) : n list =
+  let b = Array.of_list (List.map int_of_n bs) in
+  let n = Array.length b in
+  let out = ref [] and i = ref 0 in
+  while !i < n do
+    let c = b.(!i) in
+    if c < 0x80 then (out := c :: !out; i := !i + 1)
+    else if c < 0xE0 then (out := ((c land 0x1F) lsl 6) lor (b.(!i + 1) land 0x3F) :: !out; i := !i + 2)
+    else if c < 0xF0 then (out := ((c land 0x0F) lsl 12) lor ((b.(!i + 1) land 0x3F) lsl 6) lor (b.(!i + 2) land 0x3F) :: !out; i := !i + 3)
+    else (out := ((c land 0x07) lsl 18) lor ((b.(!i + 1) land 0x3F) lsl 12) lor ((b.(!i + 2) land 0x3F) lsl 6) lor (b.(!i + 3) land 0x3F) :: !out; i := !i + 4)
+  done;
+  List.rev_map n_of_int !out
+
+let src_pos_string = function
+  | SrcBytes l -> string_of_int (List.length l)
+  | SrcWords (_, p) -> n_to_string p
+
+let opt_str f = function Some x -> "some:" ^ f x | None -> "none"
+
+(* returns (result string, new source) or raises Exit on a model panic *)
+exception Model_panic of int
+let unres = function Ok x -> x | Panic w -> raise (Model_panic (int_of_n w))
+
+let s3_op (op : string) (rate : n) (src : source) : string * source =
+  let a = Array.of_list (String.split_on_char ':' op) in
+  let mut i = mutator_of_string (String.concat ":" (String.split_on_char '.' a.(i))) in
+  match a.(0) with
+  | "ci" -> let (v, s) = unres (choose_index (n_of_hex a.(1)) src) in (hex_of_n v, s)
+  | "gr" -> let (v, s) = unres (gen_range (n_of_hex a.(1)) (n_of_hex a.(2)) src) in (hex_of_n v, s)
+  | "u8" -> let (v, s) = gen_uint (nat_of_int 1) src in (hex_of_n v, s)
+  | "u16" -> let (v, s) = gen_uint (nat_of_int 2) src in (hex_of_n v, s)
+  | "u32" -> let (v, s) = gen_uint (nat_of_int 4) src in (hex_of_n v, s)
+  | "i32" -> let (v, s) = gen_i32 src in (hex_of_z 32 v, s)
+  | "i64" -> let (v, s) = gen_i64 src in (hex_of_z 64 v, s)
+  | "f64" -> let (v, s) = gen_f64 src in (hex_of_n v, s)
+  | "bool" -> let (v, s) = gen_bool src in ((if v then "1" else "0"), s)
+  | "sm" -> let (v, s) = should_mutate rate src in ((if v then "1" else "0"), s)
+  | "by" -> let (v, s) = gen_bytes (n_of_hex a.(1)) src in (hex_of_bytes v, s)
+  | "ac" -> let (v, s) = unres (gen_ascii_char src) in (hex_of_n v, s)
+  | "mi" -> let (v, s) = unres (mutate_int_one (mut 1) (z_of_hex 32 a.(2)) rate src) in (opt_str (hex_of_z 32) v, s)
+  | "ml" -> let (v, s) = unres (mutate_long_one (mut 1) (z_of_hex 64 a.(2)) rate src) in (opt_str (hex_of_z 64) v, s)
+  | "mf" -> let (v, s) = unres (mutate_float_one (mut 1) (n_of_hex a.(2)) rate src) in (opt_str hex_of_n v, s)
+  | "ms" -> let (v, s) = unres (mutate_seq_one true (mut 1) (utf8_decode (bytes_of_hex a.(2))) rate src) in
+      (opt_str (fun cps -> hex_of_bytes (utf8_encode cps)) v, s)
+  | "mb" -> let (v, s) = unres (mutate_seq_one false (mut 1) (bytes_of_hex a.(2)) rate src) in (opt_str hex_of_bytes v, s)
+  | "mm" -> let (v, s) = unres (mutate_memo_one (mut 1) (n_of_hex a.(2)) rate src) in (opt_str hex_of_n v, s)
+  | "pp" ->
+      let delta = bytes_of_hex a.(2) and prefix = bytes_of_hex a.(3) in
+      let ((cur, s), fired) = unres (post_one (mut 1) delta delta rate src) in
+      ((if fired then "1:" else "0:") ^ hex_of_bytes (prefix @ cur), s)
+  | _ -> failwith ("unknown op " ^ op)
+
+(* the property statements themselves, evaluated on the IMPLEMENTATION's result of one direct call
+   (extracted oracles ok_x, contract_x, applies_x): returns a list of (property, message) *)
+let s3_oracle (op : string) (rate_hex : string) (impl : string) : (string * string) list =
+  let a = Array.of_list (String.split_on_char ':' op) in
+  let mut i = mutator_of_string (String.concat ":" (String.split_on_char '.' a.(i))) in
+  let fails = ref [] in
+  let fail p msg = fails := (p, msg) :: !fails in
+  let rate_is_zero = (n_of_hex rate_hex = N0) || rate_hex = "8000000000000000" in
+  let rate_is_one = rate_hex = "3ff0000000000000" in
+  let some_of s = if String.length s > 5 && String.sub s 0 5 = "some:" then Some (String.sub s 5 (String.length s - 5)) else None in
+  let is_panic = String.length impl >= 6 && String.sub impl 0 6 = "panic:" in
+  let is_mut = String.length a.(0) = 2 && (a.(0).[0] = 'm' || a.(0) = "pp") in
+  if is_panic then (fail (if is_mut then "C16" else "C18") ("panic: " ^ impl); !fails)
+  else begin
+    (match a.(0) with
+     | "ci" -> if not (ok_choose_index (n_of_hex a.(1)) (n_of_hex impl)) then fail "C18" "choose_index result out of range"
+     | "gr" -> if not (ok_gen_range (n_of_hex a.(1)) (n_of_hex a.(2)) (n_of_hex impl)) then fail "C18" "gen_range result out of range"
+     | "ac" -> if not (ok_ascii (n_of_hex impl)) then fail "C18" "gen_ascii_char not printable ASCII"
+     | "by" -> if not (ok_bytes (n_of_hex a.(1)) (bytes_of_hex impl)) then fail "C18" "gen_bytes has the wrong length"
+     | "mi" | "ml" | "mf" | "ms" | "mb" | "mm" ->
+         let m = mut 1 in
+         let applicable = (match a.(0) with
+           | "mi" | "ml" -> applies_int m | "mf" -> applies_float m
+           | "ms" -> applies_seq m (utf8_decode (bytes_of_hex a.(2))) | "mb" -> applies_seq m (bytes_of_hex a.(2))
+           | _ -> applies_memo m) in
+         (match some_of impl with
+          | Some r ->
+              let ok = (match a.(0) with
+                | "mi" -> contract_int (n_of_int 32) int_boundaries m (z_of_hex 32 a.(2)) (z_of_hex 32 r)
+                | "ml" -> contract_int (n_of_int 64) long_boundaries m (z_of_hex 64 a.(2)) (z_of_hex 64 r)
+                | "mf" -> contract_float m (n_of_hex r)
+                | "ms" -> contract_seq true m (utf8_decode (bytes_of_hex a.(2))) (utf8_decode (bytes_of_hex r))
+                | "mb" -> contract_seq false m (bytes_of_hex a.(2)) (bytes_of_hex r)
+                | _ -> contract_memo m (n_of_hex a.(2)) (n_of_hex r)) in
+              if not ok then fail "C16" (Printf.sprintf "%s(%s) = %s is outside the mutator's contract" a.(1) a.(2) r);
+              if rate_is_zero then fail "C15" (Printf.sprintf "%s mutated %s to %s at rate 0" a.(1) a.(2) r)
+          | None ->
+              if rate_is_one && applicable then fail "C15" (Printf.sprintf "%s did not mutate %s at rate 1.0" a.(1) a.(2)))
+     | "pp" ->
+         let m = mut 1 in
+         let delta = bytes_of_hex a.(2) and prefix = bytes_of_hex a.(3) in
+         let fired = impl.[0] = '1' in
+         let out = bytes_of_hex (String.sub impl 2 (String.length impl - 2)) in
+         let np = List.length prefix in
+         let pre = List.filteri (fun i _ -> i < np) out and res = List.filteri (fun i _ -> i >= np) out in
+         if pre <> prefix then fail "C16" "post_process changed bytes before the snapshot"
+         else if not (contract_post m delta res fired) then
+           fail "C16" (Printf.sprintf "post_process %s on %s gave %s (fired=%b): outside the contract" a.(1) a.(2) (hex_of_bytes res) fired);
+         if rate_is_zero && (fired || res <> delta) then fail "C15" "post_process rewrote bytes at rate 0"
+     | _ -> ());
+    !fails
+  end
+
+let s3_case (c : case) : unit =
+  let h = kv c.spec in
+  let rate_hex = Hashtbl.find h "rate" in
+  let rate = n_of_hex rate_hex in
+  let src = ref (source_of (Hashtbl.find h "src")) in
+  let ok = ref true and nops = ref 0 and stop = ref false in
+  List.iter (fun l ->
+    match words l with
+    | ["R"; i; op; impl; pos] ->
+        List.iter (fun (p, msg) -> Printf.printf "PROP %s %s fail op#%s %s: %s\n" c.id p i op msg) (s3_oracle op rate_hex impl);
+        if not !stop then begin
+        incr nops;
+        let impl_panic = String.length impl >= 6 && String.sub impl 0 6 = "panic:" in
+        (try
+           let (v, s') = s3_op op rate !src in
+           src := s';
+           if impl_panic then begin
+             ok := false; stop := true;
+             Printf.printf "DIFF %s step=%s s3-panic op=%s impl=%s model=%s\n" c.id i op impl v
+           end else if v <> impl then begin
+             ok := false; stop := true;
+             Printf.printf "DIFF %s step=%s s3-result op=%s impl=%s model=%s\n" c.id i op impl v
+           end else if "pos=" ^ src_pos_string s' <> pos then begin
+             ok := false; stop := true;
+             Printf.printf "DIFF %s step=%s s3-consumption op=%s impl=%s model=pos=%s\n" c.id i op pos (src_pos_string s')
+           end
+         with Model_panic w ->
+           stop := true;
+           if not impl_panic then begin
+             ok := false;
+             Printf.printf "DIFF %s step=%s s3-panic op=%s impl=%s model panics (code %d)\n" c.id i op impl w
+           end) end
+    | _ -> ()) c.lines;
+  if !ok then Printf.printf "OK3 %s ops=%d\n" c.id !nops
+
+(* ---------- S5: call histories on one generator ---------- *)
+let s5_case (c : case) : unit =
+  let h = kv c.spec in
+  let cfg = config_of h in
+  let calls = String.split_on_char ';' (Hashtbl.find h "hist") in
+  let to_call s =
+    if s = "r" then CReset
+    else if String.sub s 0 2 = "s:" then
+      (match source_of ("seed:" ^ String.sub s 2 (String.length s - 2)) with SrcWords (f, _) -> CGenerate f | _ -> assert false)
+    else CFromBytes (bytes_of_hex (String.sub s 2 (String.length s - 2))) in
+  let (model, _) = run_history (the_env ()) (gen_new cfg) (List.map to_call calls) in
+  let impl = ref [] and fresh = ref None in
+  List.iter (fun l ->
+    match words l with
+    | "H" :: _ :: rest -> impl := String.concat " " rest :: !impl
+    | "FRESH" :: rest -> fresh := Some (String.concat " " rest)
+    | _ -> ()) c.lines;
+  let impl = List.rev !impl in
+  let show = function
+    | None -> "reset"
+    | Some (Ok out) -> "RESULT ok " ^ hex_of_bytes out
+    | Some (Panic w) -> Printf.sprintf "RESULT panic(model code %d)" (int_of_n w) in
+  let ok = ref true in
+  if List.length impl <> List.length model then begin ok := false; Printf.printf "DIFF %s step=0 s5-length impl=%d model=%d\n" c.id (List.length impl) (List.length model) end
+  else List.iteri (fun i (a, b) ->
+    let bs = show b in
+    let same = a = bs || (String.length a > 12 && String.sub a 0 12 = "RESULT panic" && String.length bs > 12 && String.sub bs 0 12 = "RESULT panic") in
+    if !ok && not same then begin
+      ok := false;
+      Printf.printf "DIFF %s step=%d s5-result call=%s impl=%s model=%s\n" c.id i (List.nth calls i)
+        (String.sub a 0 (min 160 (String.length a))) (String.sub bs 0 (min 160 (String.length bs)))
+    end) (List.combine impl model);
+  (* the property itself, on the implementation: last call of the history = the same call on a fresh generator *)
+  (match !fresh, List.rev impl with
+   | Some f, last :: _ ->
+       if f <> last then
+         Printf.printf "PROP %s C08 fail call %d (%s) after %d earlier calls returns %s... but a fresh generator returns %s...\n"
+           c.id (List.length impl - 1) (List.nth calls (List.length calls - 1)) (List.length impl - 1)
+           (String.sub last 0 (min 80 (String.length last))) (String.sub f 0 (min 80 (String.length f)))
+   | _ -> ());
+  List.iter (fun a -> if String.length a > 12 && String.sub a 0 12 = "RESULT panic" || (String.length a > 10 && String.sub a 0 10 = "RESULT err") then
+                Printf.printf "PROP %s C09 fail %s\n" c.id a) impl;
+  if !ok then Printf.printf "OK5 %s calls=%d\n" c.id (List.length calls)
+
 let () =
   match Array.to_list Sys.argv with
   | [_; "s1"; path] ->
       List.iter (fun c ->
         (try s1_case c; s1_tail_case c
          with e -> Printf.printf "DIFF %s step=0 driver-exception %s\n" c.id (Printexc.to_string e))) (read_cases path)
-  | _ -> prerr_endline "usage: driver s1 <tracefile>"; exit 2
+  | [_; "s2"; path] ->
+      List.iter (fun c ->
+        (try s2_case c
+         with e -> Printf.printf "DIFF %s step=0 s2-driver-exception %s\n" c.id (Printexc.to_string e))) (read_cases path)
+  | [_; "s3"; path] ->
+      List.iter (fun c ->
+        (try s3_case c
+         with e -> Printf.printf "DIFF %s step=0 s3-driver-exception %s\n" c.id (Printexc.to_string e))) (read_cases path)
+  | [_; "s5"; path] ->
+      List.iter (fun c ->
+        (try s5_case c
+         with e -> Printf.printf "DIFF %s step=0 s5-driver-exception %s\n" c.id (Printexc.to_string e))) (read_cases path)
+  | [_; "words"; seed; n] ->
+      let f = Glue.word_stream (Int64.of_string ("0u" ^ seed)) in
+      print_string ("WORDS " ^ seed);
+      for i = 0 to int_of_string n - 1 do Printf.printf " %08x" (f i) done; print_newline ()
+  | _ -> prerr_endline "usage: driver s1|s2 <tracefile> | words <seed> <n>"; exit 2
